@@ -325,7 +325,86 @@ func runC15(rc *RunCtx) {
 		}
 		rc.Cov.Sample(map[string]interface{}{"history_tail": e.history[max(0, len(e.history)-8):]})
 	}
+	c15Confusables(rc)
 	_ = ref.Pad32
+}
+
+// confusableU32: values that differ from d in exactly one byte, or hold d's bytes in another order.
+func confusableU32(d uint32) []uint32 {
+	out := []uint32{d ^ 1<<8, d ^ 1<<16, d ^ 1<<24, d ^ 0xff, d<<8 | d>>24, d<<16 | d>>16, d>>8 | d<<24,
+		(d&0xff)<<24 | (d&0xff00)<<8 | (d&0xff0000)>>8 | d>>24}
+	var uniq []uint32
+	seen := map[uint32]bool{d: true}
+	for _, v := range out {
+		if !seen[v] {
+			seen[v] = true
+			uniq = append(uniq, v)
+		}
+	}
+	return uniq
+}
+
+// c15Confusables: every keyed registry is operated under keys that resemble a present key (one byte of the domain /
+// nonce / token differs, bytes reordered). Each such request names another entry: it must read and write only that
+// one - the engine's state tap compares the complete exported state and every query with the model after each step.
+func c15Confusables(rc *RunCtx) {
+	for bi, base := range []uint32{5, 1, 0xffffffff, 0x01020304, 0} {
+		if bi%rc.NShards != rc.Shard {
+			continue
+		}
+		e, err := StdEngine(rc, false, false, nil)
+		if err != nil {
+			rc.Cov.Inconclusive(err.Error())
+			continue
+		}
+		e.LightQueries = false
+		ex := func(m sdk.Msg, what string) *Report {
+			r := e.Exec(Tx{Msgs: msgs1(m), Note: fmt.Sprintf("C15 confusable keys around domain %#x: %s", base, what)})
+			rc.Cov.Cell("C15_confusable_keys", what+"/"+okWord(r.OK))
+			e.readOnlyGuard("state-tap")
+			return r
+		}
+		own, tc := e.M.Owner, e.M.TC
+		if _, ok := e.M.Messengers[base]; !ok {
+			ex(&ct.MsgAddRemoteTokenMessenger{From: own, DomainId: base, Address: Messenger(base, 0)}, "messenger:add-base")
+		}
+		if _, ok := e.M.Pairs[pairKey{base, string(Token(0))}]; !ok {
+			ex(&ct.MsgLinkTokenPair{From: tc, RemoteDomain: base, RemoteToken: Token(0), LocalToken: "uusdc"}, "pair:link-base")
+		}
+		nonce := uint64(0x0102030405060708)
+		rx := func(d uint32, n uint64) sdk.Msg {
+			in := &InMsg{Version: 0, Src: d, Dst: 4, Nonce: n, Sender: Structured32(0x61), Recipient: Structured32(0x62), Caller: make([]byte, 32), Body: []byte("confusable")}
+			raw := in.Bytes()
+			return &ct.MsgReceiveMessage{From: Acct(UserIx), Message: raw, Attestation: e.Attest(raw, 0)}
+		}
+		ex(rx(base, nonce), "used-nonce:base")
+		for _, d := range confusableU32(base) {
+			if _, ok := e.M.Messengers[d]; ok {
+				continue
+			}
+			ex(&ct.MsgRemoveRemoteTokenMessenger{From: own, DomainId: d}, "messenger:remove-absent-lookalike")
+			ex(&ct.MsgAddRemoteTokenMessenger{From: own, DomainId: d, Address: Messenger(d, 1)}, "messenger:add-lookalike")
+			ex(&ct.MsgAddRemoteTokenMessenger{From: own, DomainId: d, Address: Messenger(d, 2)}, "messenger:add-lookalike-again")
+			ex(&ct.MsgUnlinkTokenPair{From: tc, RemoteDomain: d, RemoteToken: Token(0), LocalToken: "uusdc"}, "pair:unlink-absent-lookalike")
+			ex(&ct.MsgLinkTokenPair{From: tc, RemoteDomain: d, RemoteToken: Token(0), LocalToken: "uusdc"}, "pair:link-lookalike")
+			ex(rx(d, nonce), "used-nonce:lookalike-domain")
+			ex(rx(d, nonce), "used-nonce:lookalike-domain-replayed")
+			ex(&ct.MsgRemoveRemoteTokenMessenger{From: own, DomainId: d}, "messenger:remove-lookalike")
+			ex(&ct.MsgUnlinkTokenPair{From: tc, RemoteDomain: d, RemoteToken: Token(0), LocalToken: "uusdc"}, "pair:unlink-lookalike")
+		}
+		for k := uint(0); k < 8; k++ {
+			ex(rx(base, nonce^(1<<(8*k))), "used-nonce:lookalike-nonce")
+		}
+		ex(rx(base, nonce<<8|nonce>>56), "used-nonce:rotated-nonce")
+		// domain and nonce bytes exchanged across the key's field boundary
+		ex(rx(uint32(nonce>>32), uint64(base)<<32|nonce&0xffffffff), "used-nonce:fields-exchanged")
+		ex(rx(base, nonce), "used-nonce:base-replayed")
+		// the base entries are still there and still removable once
+		ex(&ct.MsgRemoveRemoteTokenMessenger{From: own, DomainId: base}, "messenger:remove-base")
+		ex(&ct.MsgRemoveRemoteTokenMessenger{From: own, DomainId: base}, "messenger:remove-base-again")
+		ex(&ct.MsgUnlinkTokenPair{From: tc, RemoteDomain: base, RemoteToken: Token(0), LocalToken: "uusdc"}, "pair:unlink-base")
+		e.FullQueryCheck(nil, nil)
+	}
 }
 
 func init() {
